@@ -123,6 +123,14 @@ let eval_stream (stream : string) (case : string) (impl : string) : verdict =
     { model; fails = (if spec <> impl then [("C19", "-")] else []) }
   | "parse" -> let (model, fails) = Parse_o.eval_parse case impl in { model; fails }
   | "prefix" -> let (model, fails) = Parse_o.eval_prefix case impl in { model; fails }
+  | "swar" ->
+    (* the scanners called directly: model = the word-at-a-time functions of Model/Parser.v; spec = index of the first byte
+       that is not visible ASCII / that is '?' or SP (uri_tail / path_tail; C01_scan_* prove model = spec) *)
+    let input = if case = "-" then [] else bytes_of_hex case in
+    let line u p = Printf.sprintf "u=%d p=%d" (int_of_nat u) (int_of_nat p) in
+    let m = line (Model.match_uri_vectored input) (Model.match_path_vectored input) in
+    let sp = line (Model.uri_tail input) (Model.path_tail input) in
+    { model = m; fails = (if impl <> sp then [("C01", "-")] else []) }
   | "prefixsafe" -> { model = impl; fails = (if String.contains impl 'X' then [("C01", "-")] else []) }
   | "grammar" -> let (model, fails) = Parse_o.eval_grammar case impl in { model; fails }
   | "poolsrv" ->
